@@ -338,4 +338,80 @@ pub mod oracle {
         }
         A64Run { end: A64End::Stuck, written, x0: regs[0] }
     }
+
+    // ---- 32-bit ARM (A32 / T32) ----------------------------------------------------------------
+    // LDR (literal) and BX restated from the Arm ARM (A8.8.64 / A8.8.27) incl. the Align(PC,4) rule;
+    // the AAPCS32 callee-saved set is r4-r11, sp (r13); lr (r14) must hold the return address at entry.
+    pub const AAPCS32_MUST_PRESERVE: u32 = 0x0FF0 | (1 << 13) | (1 << 14);
+
+    pub struct ArmEntry {
+        /// address the literal load reads from
+        pub load_addr: u32,
+        /// register loaded and the register branched through
+        pub rt: u8,
+        pub rm: u8,
+        /// bit set of general registers written before control leaves the patch
+        pub written: u32,
+    }
+
+    fn le16(p: &[u8; 12], at: usize) -> u16 {
+        u16::from_le_bytes([p[at], p[at + 1]])
+    }
+    fn le32(p: &[u8; 12], at: usize) -> u32 {
+        u32::from_le_bytes([p[at], p[at + 1], p[at + 2], p[at + 3]])
+    }
+
+    /// Decode the 12-byte entry patch placed at `dest` and executed in ARM (thumb = false) or Thumb state.
+    pub fn arm_entry_decode(p: &[u8; 12], dest: u32, thumb: bool) -> Option<ArmEntry> {
+        if !thumb {
+            if dest % 4 != 0 {
+                return None;
+            }
+            let w0 = le32(p, 0);
+            let w1 = le32(p, 4);
+            // cond = AL, LDR (literal): cond 010 P=1 U B=0 W=0 L=1 Rn=1111 Rt imm12
+            if w0 >> 28 != 0xE || (w0 & 0x0F7F_0000) != 0x051F_0000 {
+                return None;
+            }
+            let add = (w0 >> 23) & 1 == 1;
+            let rt = ((w0 >> 12) & 0xF) as u8;
+            let imm12 = w0 & 0xFFF;
+            let base = dest.wrapping_add(8) & !3; // Align(PC, 4), PC = address of the instruction + 8
+            let load_addr = if add { base.wrapping_add(imm12) } else { base.wrapping_sub(imm12) };
+            // BX Rm: cond 0001 0010 1111 1111 1111 0001 Rm
+            if w1 >> 28 != 0xE || (w1 & 0x0FFF_FFF0) != 0x012F_FF10 {
+                return None;
+            }
+            let rm = (w1 & 0xF) as u8;
+            if rt == 15 {
+                return None;
+            }
+            return Some(ArmEntry { load_addr, rt, rm, written: 1 << rt });
+        }
+        if dest % 2 != 0 {
+            return None;
+        }
+        let mut at = 0usize;
+        let mut h = le16(p, at);
+        // Thumb NOPs: the hint 0xBF00, or the classic `mov r8, r8` (0x46C0), which writes r8 with itself
+        if h == 0xBF00 || h == 0x46C0 {
+            at += 2;
+            h = le16(p, at);
+        }
+        // LDR (literal), encoding T1: 01001 Rt imm8
+        if h & 0xF800 != 0x4800 {
+            return None;
+        }
+        let rt = ((h >> 8) & 7) as u8;
+        let imm8 = (h & 0xFF) as u32;
+        let pc = dest.wrapping_add(at as u32).wrapping_add(4); // PC = address of the instruction + 4
+        let load_addr = (pc & !3).wrapping_add(imm8 * 4);
+        let b = le16(p, at + 2);
+        // BX Rm, encoding T1: 010001 11 0 Rm 000
+        if b & 0xFF87 != 0x4700 {
+            return None;
+        }
+        let rm = ((b >> 3) & 0xF) as u8;
+        Some(ArmEntry { load_addr, rt, rm, written: 1 << rt })
+    }
 }
